@@ -50,6 +50,7 @@ structure DState where
   visGuard : Bool := true     -- F=0 replays the behaviour before the `fix:` commit (F7)
   exactGuard : Bool := true   -- X=0 replays the behaviour before the `fix:` commit (F10)
   aliasGuard : Bool := true   -- A=0 replays the behaviour before the `fix:` commit (F11)
+  drGuard : Bool := true      -- D=0 replays the behaviour before the `fix:` commit (F12, mesh default DR export)
   mesh : Mesh := {}
   raw : List Svc := []        -- as declared
   built : Bool := false
@@ -207,7 +208,7 @@ def stepD (d : DState) (toks : List String) : DState × String :=
   | "case" :: rest =>
     ({ unified := flagOf rest "U" true, pickBest := flagOf rest "P" true, enhanced := flagOf rest "E" true,
        visGuard := flagOf rest "F" true, exactGuard := flagOf rest "X" true,
-       aliasGuard := flagOf rest "A" true }, "ok")
+       aliasGuard := flagOf rest "A" true, drGuard := flagOf rest "D" true }, "ok")
   | ["h", n, m] => (d, hostLine (dec n) (dec m))
   | ["mesh", root, ds, dv, dd, ap] =>
     ({ d with mesh := { rootNs := dec root, defSvc := decOptList ds, defVS := decOptList dv,
@@ -234,7 +235,7 @@ def stepD (d : DState) (toks : List String) : DState × String :=
     ({ d with scs := d.scs ++ [c] }, "ok")
   | ["build"] =>
     ({ d with built := true, defaultNs := [], svcs := resolveAliases (sortServices d.raw), vss := sortVS d.vssRaw,
-              drIdx := setDestinationRules d.enhanced d.mesh d.drs }, "ok")
+              drIdx := setDestinationRules d.enhanced d.drGuard d.mesh d.drs }, "ok")
   | [q, ns, lbl] =>
     if q != "scope" && q != "xds" && q != "eds" then (if d.built then (d, query d toks) else (d, "not-built")) else
     if !d.built then (d, "not-built") else
